@@ -28,6 +28,7 @@ def run(rep, idx, tier):
     decoding_components(rep, idx)
     wrappers(rep, idx)
     bridge_registers(rep, idx)
+    glue.write_once_handles(rep, "C01.3", idx, "csr/reg:Bridge")
     bridge(rep, idx)
     setters(rep, idx)
     forwarded_bits(rep, idx)
